@@ -192,3 +192,59 @@ K("awkward_Index_iscontiguous",
   notes="the 8-bit and unsigned instantiations count with a wrapping `T expecting`: an Index8 longer than 128 entries whose entry 128 is -128 "
         "would be reported contiguous; no caller asks this of a narrow index (carry indexes are Index64), so it is recorded as an observation, not a finding",
   serves=["C02", "C12", "C13"])
+
+
+# ---- C03: the offsets of the reduced lists are the group starts, closed by the total length
+K("awkward_IndexedArray_reduce_next_fix_offsets_64",
+  loops={"L0": ["0 <= i", "forall(q, 0, i, outoffsets[q] == starts[q])"]},
+  ensures_ok=["forall(q, 0, startslength, outoffsets[q] == starts[q])", "outoffsets[startslength] == outindexlength"],
+  serves=["C03", "C06", "C12", "C13"])
+
+# counting reducers on booleans (sum of bools as int32/int64 == count of True): same fold as count_nonzero
+for _nm in ["awkward_reduce_sum_int32_bool_64", "awkward_reduce_sum_int64_bool_64"]:
+    K(_nm,
+      extents={"toptr": "outlength", "fromptr": "lenparents", "parents": "lenparents"},
+      requires=["forall(j, 0, lenparents, 0 <= parents[j] < outlength)"],
+      ghost={"G": (["p", "n"], None)},
+      axioms=["forall(p, 0, outlength, G(p, 0) == 0)",
+              "forall(p, 0, outlength, forall(n, 0, lenparents, G(p, n + 1) == G(p, n) + ite(parents[n] == p, ite(fromptr[n] != 0, 1, 0), 0)))"],
+      loops={"L0": ["0 <= i", "forall(p, 0, i, toptr[p] == 0)"],
+             "L1": ["0 <= i", "i <= lenparents", "forall(p, 0, outlength, toptr[p] == G(p, i))"]},
+      ensures_ok=["forall(p, 0, outlength, toptr[p] == G(p, lenparents))"],
+      serves=["C03", "C12", "C13"])
+
+# ---- C09 / C03: positions of the valid entries count the valid entries before them; the shift of a valid entry
+# is the number of missing entries before it
+K("awkward_IndexedOptionArray_rpad_and_clip_mask_axis1",
+  sums={"NV": ("q", "length", "ite(frommask[q] != 0, 0, 1)", ["frommask"], "unit")},
+  loops={"L0": ["0 <= i", "i <= length", "count == NV(frommask, i)"]},
+  store_asserts={"toindex": ["at == i", "value == ite(frommask[i] != 0, 0 - 1, NV(frommask, i))"]},
+  serves=["C09", "C12", "C13"])
+
+# C03 (argmin/argmax positions): when missing entries are dropped before reducing, the shift of the k-th valid entry
+# is the number of missing entries before it (added to the incoming shift, if any)
+_VI = {"V": ("q", "length", "ite(index[q] >= 0, 1, 0)", ["index"], "unit")}
+K("awkward_IndexedArray_reduce_next_nonlocal_nextshifts_64",
+  sums=_VI,
+  loops={"L0": ["0 <= i", "i <= length", "k == V(index, i)", "nullsum == i - V(index, i)"]},
+  store_asserts={"nextshifts": ["index[i] >= 0", "at == V(index, i)", "value == i - V(index, i)"]},
+  serves=["C03", "C06", "C12", "C13"])
+
+K("awkward_IndexedArray_reduce_next_nonlocal_nextshifts_fromshifts_64",
+  sums=_VI,
+  loops={"L0": ["0 <= i", "i <= length", "k == V(index, i)", "nullsum == i - V(index, i)"]},
+  store_asserts={"nextshifts": ["index[i] >= 0", "at == V(index, i)", "value == shifts[i] + i - V(index, i)"]},
+  serves=["C03", "C06", "C12", "C13"])
+
+_VM = {"W": ("q", "length", "ite((mask[q] != 0) == valid_when, 1, 0)", ["mask", "valid_when"], "unit")}
+K("awkward_ByteMaskedArray_reduce_next_nonlocal_nextshifts_64",
+  sums=_VM,
+  loops={"L0": ["0 <= i", "i <= length", "k == W(mask, valid_when, i)", "nullsum == i - W(mask, valid_when, i)"]},
+  store_asserts={"nextshifts": ["(mask[i] != 0) == valid_when", "at == W(mask, valid_when, i)", "value == i - W(mask, valid_when, i)"]},
+  serves=["C03", "C12", "C13"])
+
+K("awkward_ByteMaskedArray_reduce_next_nonlocal_nextshifts_fromshifts_64",
+  sums=_VM,
+  loops={"L0": ["0 <= i", "i <= length", "k == W(mask, valid_when, i)", "nullsum == i - W(mask, valid_when, i)"]},
+  store_asserts={"nextshifts": ["(mask[i] != 0) == valid_when", "at == W(mask, valid_when, i)", "value == shifts[i] + i - W(mask, valid_when, i)"]},
+  serves=["C03", "C12", "C13"])
